@@ -298,7 +298,7 @@ package scheduler
 //@   ensures[sum] delta != nil ==> (forall t Key :: rv(pc.totalPartitionResource, t) == clamp64(old(rv(pc.totalPartitionResource, t)) + old(rv(delta, t)))) && ncalls(objects.Queue.SetMaxResource) == 1
 
 //@ func (pc *PartitionContext) addNodeToList(node *objects.Node) (err error)
-//@   props C02
+//@   props C02 C13
 //@   sweep
 //@   mode nopanic=off
 //@   at[capacity] call scheduler.PartitionContext.updatePartitionResource#1: assert arg0 == pc && (forall t Key :: rv(arg1, t) == rv(node.totalResource, t))
@@ -350,3 +350,54 @@ package scheduler
 //@   at[swap] call scheduler.ClusterContext.notifyRMAllocationReleased#1: assert arg0 == cc && arg1 == psc.RmID && arg2 == psc.Name && arg4 == 4 && result.ResultType == objects.Replaced && len(arg3) == 1
 //@   at[order1] call scheduler.PartitionContext.tryPlaceholderAllocate#1: assert arg0 == psc && ncalls(scheduler.PartitionContext.tryReservedAllocate) == iter(ncalls(scheduler.PartitionContext.tryReservedAllocate)) + 1
 //@   at[order2] call scheduler.PartitionContext.tryAllocate#1: assert arg0 == psc && ncalls(scheduler.PartitionContext.tryPlaceholderAllocate) == iter(ncalls(scheduler.PartitionContext.tryPlaceholderAllocate)) + 1
+
+// a queue that does not exist yet is created only below a non-leaf queue that grants the user submit access (checked on
+// the lowest existing ancestor), every new level hangs under the level created before it, and only the last one is a leaf
+//@ spec abstract submitok(q *objects.Queue) bool
+//@ func (pc *PartitionContext) createQueue(name string, user security.UserGroup) (q *objects.Queue, err error)
+//@   props C17
+//@   sweep
+//@   mode nopanic=off
+//@   at[acl] call objects.Queue.CheckSubmitAccess#1 after: assume ret <==> submitok(arg0)
+//@   at[aclon] call objects.Queue.CheckSubmitAccess#1: assert arg0 == queue && queue != nil
+//@   at[create] call objects.NewDynamicQueue#1: assert arg1 == (i == 0) && arg2 == queue && arg0 == toCreate[i] && ncalls(objects.Queue.CheckSubmitAccess) == 1
+//@   at[leafcheck] call objects.Queue.IsLeafQueue#1: assert arg0 == queue && submitok(queue)
+
+// the queue cleaner removes a queue only when it is draining or dynamic AND empty, children first
+//@ spec abstract qdraining(q *objects.Queue) bool
+//@ spec abstract qmanaged(q *objects.Queue) bool
+//@ spec abstract qempty(q *objects.Queue) bool
+//@ func (manager *partitionManager) cleanQueues(queue *objects.Queue)
+//@   props C16
+//@   sweep
+//@   mode nopanic=off
+//@   loop 1: exhaustive
+//@   loop 1: each ncalls(scheduler.partitionManager.cleanQueues) == iter(ncalls(scheduler.partitionManager.cleanQueues)) + 1
+//@   at[draining] call objects.Queue.IsDraining#1 after: assume ret <==> qdraining(arg0)
+//@   at[managed] call objects.Queue.IsManaged#1 after: assume ret <==> qmanaged(arg0)
+//@   at[empty] call objects.Queue.IsEmpty#1 after: assume ret <==> qempty(arg0)
+//@   at[onlyempty] call objects.Queue.RemoveQueue#1: assert arg0 == queue && qempty(queue) && (qdraining(queue) || !qmanaged(queue))
+
+// registering a node: the node object is built from the message, gets the schedulable flag of the request, and is
+// handed to its partition exactly once; a node for an unknown partition is refused without being handed to anything
+//@ func (cc *ClusterContext) addNode(nodeInfo *si.NodeInfo, schedulable bool) (err error)
+//@   props C13 C04
+//@   sweep
+//@   mode nopanic=on
+//@   holds cc != nil && nodeInfo != nil
+//@   at[built] call objects.NewNode#1 after: assume ret != nil
+//@   at[flag] call objects.Node.SetSchedulable#1: assert arg0 == sn && arg1 == schedulable
+//@   at[handed] call scheduler.PartitionContext.AddNode#1: assert arg0 == partition && partition != nil && arg1 == sn
+//@   ensures[accepted] err == nil ==> ncalls(scheduler.PartitionContext.AddNode) == 1
+
+// the dry run of a reload (silence = true, a throw-away partition built only to validate the new configuration) touches
+// nothing shared: in particular the process-wide user/group limits are only updated by the real load
+//@ func (pc *PartitionContext) initialPartitionFromConfig(conf configs.PartitionConfig, silence bool) (err error)
+//@   props C16
+//@   sweep
+//@   mode nopanic=off
+//@   at[notdryrun] call ugm.Manager.UpdateConfig#1: assert !silence
+//@   at[rootsilent] call objects.NewConfiguredQueue#1: assert arg1 == nil && arg2 == silence
+//@   at[queuessilent] call scheduler.PartitionContext.addQueue#1: assert arg0 == pc && arg2 == pc.root && arg3 == silence
+//@   at[rulessilent] call placement.NewPlacementManager#1: assert arg2 == silence
+//@   ensures[dryrun] silence ==> ncalls(ugm.Manager.UpdateConfig) == 0
